@@ -5,6 +5,7 @@ CONSTANTS
   BaseSeq <- BasesTiny
   WrapSeq <- WrapsTiny
   RenSeq <- RensMC
+  DocSet = {FALSE}
   Family = "all"
   MaxFields = 3
   MaxDepth = 3
@@ -14,5 +15,5 @@ CONSTANTS
   GenSizes <- SizesNone
   NVals = 0
 SPECIFICATION Spec
-INVARIANTS Theorems
+INVARIANTS TheoremsDiag
 CHECK_DEADLOCK FALSE
